@@ -450,3 +450,183 @@ Proof.
   intros c k H. unfold lookup_cls, ct_demo in H. cbn [find] in H.
   destruct (c_id k_demo =? c) eqn:E; [|discriminate]. apply N.eqb_eq in E. cbn in E. subst c. reflexivity.
 Qed.
+
+(* ======================================================================================
+   Independence from the prior history: the result depends on the registry only through the
+   classes of the table, and the entry points register those themselves
+   ====================================================================================== *)
+Section History.
+  Variable b64dec : str -> option (list N).
+  Variable b64enc : list N -> str.
+  Variable dt_parse date_parse : str -> option str.
+  Variable int_of_str float_of_str : str -> option Z.
+  Variable str_of_json : json -> str.
+  Variable ct : list cls.
+
+  Definition reg_equiv (r1 r2 : list N) : Prop :=
+    forall c k, lookup_cls ct c = Some k -> mem_N c r1 = mem_N c r2.
+
+  Notation Sr r := (structure b64dec dt_parse date_parse int_of_str float_of_str str_of_json ct r).
+  Notation Sstr r := (structure_str b64dec dt_parse date_parse int_of_str float_of_str ct r).
+  Notation Ur r := (unstructure b64enc ct r).
+
+  Lemma map_result_ext_in : forall {A B} (f g : A -> result B) l,
+    (forall x, In x l -> f x = g x) -> map_result f l = map_result g l.
+  Proof.
+    intros A B f g. induction l as [|x l IH]; intro H; [reflexivity|].
+    rewrite !map_result_cons, (H x (or_introl eq_refl)), IH; [reflexivity|].
+    intros y Hy. apply H. right. exact Hy.
+  Qed.
+
+  Lemma structure_str_equiv : forall r1 r2, reg_equiv r1 r2 -> forall T s, Sstr r1 T s = Sstr r2 T s.
+  Proof.
+    intros r1 r2 He. induction T; intro s; cbn [structure_str]; try reflexivity.
+    - (* list *) destruct (eager_bad T); [reflexivity|].
+      f_equal. apply map_result_ext_in. intros c _. apply IHT.
+    - (* opt *) destruct T; try reflexivity; try (apply IHT).
+    - (* data *) destruct (lookup_cls ct c) as [k|] eqn:Ek; [|reflexivity].
+      rewrite (He c k Ek). reflexivity.
+  Qed.
+
+  Definition kid_equiv {A} (f g : ty -> result A) : Prop := forall T, f T = g T.
+  Definition kd_equiv {A} (kd1 kd2 : list (str * (ty -> result A))) : Prop :=
+    Forall2 (fun a b => fst a = fst b /\ kid_equiv (snd a) (snd b)) kd1 kd2.
+
+  Lemma alookup_equiv : forall {A} (kd1 kd2 : list (str * (ty -> result A))) key,
+    kd_equiv kd1 kd2 ->
+    match alookup key kd1, alookup key kd2 with
+    | Some f, Some g => kid_equiv f g
+    | None, None => True
+    | _, _ => False
+    end.
+  Proof.
+    intros A kd1 kd2 key H. induction H as [|[k1 f] [k2 g] r1' r2' [Hk Hf] _ IH]; [exact I|].
+    cbn [fst snd] in *. subst k2. cbn [alookup]. destruct (str_eqb key k1); [exact Hf | exact IH].
+  Qed.
+
+  Lemma map_result_Forall2_ext : forall {A A' B} (f : A -> result B) (g : A' -> result B) l1 l2,
+    Forall2 (fun a b => f a = g b) l1 l2 -> map_result f l1 = map_result g l2.
+  Proof.
+    intros A A' B f g l1 l2 H. induction H as [|a b l1 l2 Hab _ IH]; [reflexivity|].
+    rewrite !map_result_cons, Hab, IH. reflexivity.
+  Qed.
+
+  Lemma Forall2_weaken : forall {A B} (P Q : A -> B -> Prop) l1 l2,
+    (forall a b, P a b -> Q a b) -> Forall2 P l1 l2 -> Forall2 Q l1 l2.
+  Proof. intros A B P Q l1 l2 H F. induction F; constructor; auto. Qed.
+
+  Section Node.
+    Variables r1 r2 : list N.
+    Hypothesis He : reg_equiv r1 r2.
+    Variable j : json.
+    Variables kl1 kl2 : list (ty -> result value).
+    Variables kd1 kd2 : list (str * (ty -> result value)).
+    Hypothesis Hkl : Forall2 kid_equiv kl1 kl2.
+    Hypothesis Hkd : kd_equiv kd1 kd2.
+
+    Lemma data_equiv : forall c, structure_data ct r1 j kd1 c = structure_data ct r2 j kd2 c.
+    Proof.
+      intro c. unfold structure_data.
+      destruct (lookup_cls ct c) as [k|] eqn:Ek; [|reflexivity]. rewrite (He c k Ek).
+      destruct (existsb _ _); [reflexivity|].
+      destruct j; try reflexivity.
+      f_equal. apply map_result_ext_in. intros f _.
+      pose proof (alookup_equiv kd1 kd2 (load_key k (mem_N c r2) (f_name f)) Hkd) as Ha.
+      destruct (alookup _ kd1), (alookup _ kd2); try contradiction; [apply Ha | reflexivity].
+    Qed.
+
+    Lemma nonopt_equiv : forall T,
+      structure_nonopt b64dec dt_parse date_parse int_of_str float_of_str str_of_json ct r1 j kl1 kd1 T =
+      structure_nonopt b64dec dt_parse date_parse int_of_str float_of_str str_of_json ct r2 j kl2 kd2 T.
+    Proof.
+      intro T. destruct T; cbn [structure_nonopt]; try reflexivity.
+      - destruct (eager_bad T); [reflexivity|]. destruct j; try reflexivity.
+        + f_equal. apply map_result_Forall2_ext. eapply Forall2_weaken; [|exact Hkl]. intros a b Hab. apply Hab.
+        + f_equal. apply map_result_Forall2_ext. eapply Forall2_weaken; [|exact Hkd].
+          intros a b [Hk _]. rewrite Hk. apply structure_str_equiv. exact He.
+      - destruct (eager_bad T); [reflexivity|]. destruct j; try reflexivity.
+        f_equal. apply map_result_Forall2_ext. eapply Forall2_weaken; [|exact Hkd].
+        intros a b [Hk Hf]. rewrite Hk, (Hf T). reflexivity.
+      - apply data_equiv.
+    Qed.
+
+    Lemma node_equiv : forall T,
+      structure_node b64dec dt_parse date_parse int_of_str float_of_str str_of_json ct r1 j kl1 kd1 T =
+      structure_node b64dec dt_parse date_parse int_of_str float_of_str str_of_json ct r2 j kl2 kd2 T.
+    Proof.
+      intro T. destruct T; cbn [structure_node]; try apply nonopt_equiv.
+      destruct j eqn:Ej; try reflexivity;
+        destruct (strip_opt T) as [| | | | | | | | | |X|X|X|c|vals|c] eqn:Es; try reflexivity;
+        try (rewrite <- Ej; apply nonopt_equiv); try (rewrite <- Ej; apply data_equiv);
+        try (destruct X; try reflexivity; rewrite <- Ej; apply nonopt_equiv).
+    Qed.
+  End Node.
+
+  Lemma structure_equiv : forall r1 r2, reg_equiv r1 r2 -> forall j T, Sr r1 j T = Sr r2 j T.
+  Proof.
+    intros r1 r2 He. induction j using json_ind'; intro T; cbn [structure].
+    1-4: apply (node_equiv r1 r2 He); constructor.
+    - apply structure_str_equiv. exact He.
+    - apply (node_equiv r1 r2 He); [|constructor].
+      induction H as [|x l Hx _ IH]; cbn [map]; constructor; [exact Hx | exact IH].
+    - apply (node_equiv r1 r2 He); [constructor|].
+      induction H as [|[k v] l Hv _ IH]; cbn [map]; constructor; [|exact IH].
+      cbn [fst snd]. split; [reflexivity | exact Hv].
+  Qed.
+
+  (* what the registration walk must achieve for this table (executable; evaluated on the cases) *)
+  Definition reaches_all (T : ty) : bool := forallb (fun k => mem_N (c_id k) (reach ct T)) ct.
+
+  Lemma lookup_in : forall c k, lookup_cls ct c = Some k -> In k ct /\ c_id k = c.
+  Proof.
+    intros c k H. unfold lookup_cls in H. apply find_some in H as [Hin He].
+    apply N.eqb_eq in He. split; assumption.
+  Qed.
+
+  Lemma mem_N_app : forall c a b, mem_N c (a ++ b) = mem_N c a || mem_N c b.
+  Proof. intros. unfold mem_N. apply existsb_app. Qed.
+
+  Lemma reaches_all_hooked : forall T extra, reaches_all T = true -> all_hooked ct (reach ct T ++ extra).
+  Proof.
+    intros T extra H c k Hk. destruct (lookup_in c k Hk) as [Hin Hid].
+    unfold reaches_all in H. rewrite forallb_forall in H. specialize (H k Hin).
+    rewrite Hid in H. rewrite mem_N_app, H. reflexivity.
+  Qed.
+
+  (* structure_from_dict: whatever was registered or structured before, the outcome is the same *)
+  Theorem history_free_partial : forall T, reaches_all T = true -> forall st1 st2 j,
+    snd (structure_from_dict b64dec dt_parse date_parse int_of_str float_of_str str_of_json ct st1 T j) =
+    snd (structure_from_dict b64dec dt_parse date_parse int_of_str float_of_str str_of_json ct st2 T j).
+  Proof.
+    intros T Hr st1 st2 j. unfold structure_from_dict. cbn [snd sreg_of].
+    rewrite (structure_equiv (reach ct T ++ sreg_of st1) (reach ct T ++ sreg_of st2)); [reflexivity|].
+    intros c k Hk. rewrite (reaches_all_hooked T (sreg_of st1) Hr c k Hk),
+                           (reaches_all_hooked T (sreg_of st2) Hr c k Hk). reflexivity.
+  Qed.
+
+  (* the two entry points, any prior state: encode, then decode, gives the instance back *)
+  Theorem api_encode_decode_partial :
+    (forall b, b64dec (b64enc b) = Some b) -> ct_ok ct ->
+    forall c v st, reaches_all (TData c) = true ->
+      inst_ok dt_parse date_parse ct (TData c) v ->
+      exists j st', unstructure_to_dict b64enc ct st v = (st', Returned j) /\
+        snd (structure_from_dict b64dec dt_parse date_parse int_of_str float_of_str str_of_json ct st' (TData c) j)
+        = Returned v.
+  Proof.
+    intros Hb Hct c v st Hr Hi.
+    assert (Hv : exists fs, v = VData c fs) by (inversion Hi; eexists; reflexivity).
+    destruct Hv as [fs ->].
+    pose (st' := {| sreg_of := sreg_of st; ureg_of := reach ct (TData c) ++ ureg_of st |}).
+    destruct (encode_decode_core b64dec b64enc dt_parse date_parse int_of_str float_of_str str_of_json ct
+                (reach ct (TData c) ++ sreg_of st') (ureg_of st') Hb Hct
+                (reaches_all_hooked _ _ Hr) (reaches_all_hooked _ _ Hr) (VData c fs) (TData c) eq_refl Hi)
+      as [j [Hu [Hs _]]].
+    exists j, st'. split.
+    - unfold unstructure_to_dict. fold st'.
+      assert (Hdyn : unstructure b64enc ct (ureg_of st') (VData c fs) TAny
+                   = unstructure b64enc ct (ureg_of st') (VData c fs) (TData c)).
+      { cbn [unstructure unstructure_node unstructure_nonopt]. rewrite N.eqb_refl. reflexivity. }
+      rewrite Hdyn, Hu. reflexivity.
+    - unfold structure_from_dict. cbn [snd sreg_of]. rewrite Hs. reflexivity.
+  Qed.
+End History.
